@@ -20,6 +20,7 @@ pub fn generate(stream: &str, seed: u64, n: usize, emit: &mut dyn FnMut(String))
 		"rt-td" => ser::generate_rt_td(seed, n, emit),
 		"prio" => ser::generate_prio(seed, n, emit),
 		"freeze-table" => ser::generate_freeze_table(emit),
+		"leaf-table" => ser::generate_leaf_table(emit),
 		"chain" => schema::generate_chain(emit),
 		"single" => ser::generate_single(seed, n, emit),
 		"schema" | "schema-bad" | "names-table" => schema::generate(stream, seed, n, emit),
